@@ -37,6 +37,31 @@ struct Codec<std::string>
   }
 };
 
+// a trivially copyable element of 48 KiB: a few hundred of them are tens of megabytes
+struct Big
+{
+  uint32_t id;
+  unsigned char pad[48 * 1024 - 4];
+};
+template <>
+struct Codec<Big>
+{
+  static Big enc(uint32_t v)
+  {
+    Big b;
+    b.id = v;
+    b.pad[0] = (unsigned char)v;
+    b.pad[sizeof b.pad - 1] = (unsigned char)(v >> 8);
+    return b;
+  }
+  static uint32_t dec(const Big &b)
+  {
+    if (b.pad[0] != (unsigned char)b.id || b.pad[sizeof b.pad - 1] != (unsigned char)(b.id >> 8))
+      return 0xffffffffu;
+    return b.id;
+  }
+};
+
 template <typename T>
 void do_consumer_op(rkcommon::containers::TransactionalBuffer<T> &buf, int kind)
 {
@@ -220,6 +245,8 @@ extern "C" void c12buf_run()
 {
   if (c12buf_plan()->payload == 0)
     run_buf<int>();
+  else if (c12buf_plan()->payload == 2)
+    run_buf<Big>();
   else
     run_buf<std::string>();
 }
